@@ -410,6 +410,11 @@ func syncSessCheck(run *core.Run) {
 	}
 	run.States += res.Distinct
 	run.Transitions += res.Generated
+	// liveness on the specification itself: under weak fairness of the remote's answers every synchronisation ends
+	lv, err := core.RunTLC(core.TLCOpts{Module: "SyncSession", CfgText: "CONSTANTS\n  WithHist = FALSE\nSPECIFICATION Spec\nPROPERTIES Ends\nCHECK_DEADLOCK FALSE\n", Timeout: 5 * time.Minute})
+	if err != nil || lv.Violated != "" || lv.Err != "" {
+		core.Fatal("SyncSession liveness: %v %s %s", err, lv.Violated, lv.Err)
+	}
 	seen := map[string]bool{}
 	var behaviours []syncSessBehaviour
 	_, err = core.RunTLC(core.TLCOpts{Module: "SyncSession", CfgText: fmt.Sprintf(cfg, "TRUE", "VIEW GenView\nACTION_CONSTRAINT EmitEdge"), Workers: 1, Timeout: 5 * time.Minute,
